@@ -270,6 +270,8 @@ class ModelMeta(type):
         for klass in reversed(cls.__mro__):
             fields.update(klass.__dict__.get("__psvc_own_fields__", {}))
         cls.__psvc_fields__ = fields
+        # the introspection attribute of real pydantic models: field name -> FieldInfo
+        cls.model_fields = {k: v[1] for k, v in fields.items()}
         # pydantic removes field defaults from the class namespace
         for fname in list(fields):
             if fname in cls.__dict__:
@@ -349,6 +351,21 @@ class BaseModel(metaclass=ModelMeta):
         memo[id(self)] = new
         for k, v in self.__dict__.items():
             object.__setattr__(new, k, copy.deepcopy(v, memo))
+        return new
+
+    def model_dump(self, **kw):
+        """field name -> value (nested models are returned as they are: enough for introspection)"""
+        exclude = kw.get("exclude") or ()
+        if isinstance(exclude, str):
+            exclude = (exclude,)
+        return {k: getattr(self, k) for k in type(self).__psvc_fields__ if k not in exclude}
+
+    def model_copy(self, **kw):
+        import copy
+
+        new = copy.copy(self)
+        for k, v in (kw.get("update") or {}).items():
+            object.__setattr__(new, k, v)
         return new
 
     def model_dump_json(self, **kw):
